@@ -131,6 +131,15 @@ class _Base(Harness):
             o = t.copy()
             t += o
             return None
+        if m == "iadd_missed":
+            # += a fresh histogram over the same bins that carries under/overflow (merged into the target's missed counters in place)
+            cls = type(t)
+            if t.ndim == 1:
+                k = cls(t.bins, t.frequencies.copy(), underflow=x["w"], overflow=x["c"])
+            else:
+                k = cls(list(t.bins), t.frequencies.copy(), missed=x["w"])
+            t += k
+            return None
         if m == "imul":
             t *= x["c"]
             return None
@@ -202,6 +211,11 @@ class C12Static1D(_Base):
             if tier == "quick" and side == "source" and m in ("fill_n", "idiv", "iadd") and d not in ("slice", "copy"):
                 continue
             yield f"1d-{d}-{m}-{side}", dict(deriv=d, mut=m, side=side)
+        # sources that do not track missed values (keep_missed=False) + a later in-place add of a histogram that carries under/overflow
+        for d, m, side, keep in itertools.product(["copy", "add", "mul", "slice", "sum1"], ["iadd_missed", "idiv", "fill"], ("derived", "source"), (False, True)):
+            if keep and m != "iadd_missed":
+                continue
+            yield f"1d-{d}-{m}-{side}-keep{int(keep)}", dict(deriv=d, mut=m, side=side, keep=keep)
 
     def declare(self, cx, p):
         x = {"f": declare_cells(cx, "f", [3], "int"), "q": declare_cells(cx, "q", [3], "int"), "e": declare_edges(cx, "e", 3), "u": cx.int("u", 0), "o": cx.int("o", 0),
@@ -219,8 +233,8 @@ class C12Static1D(_Base):
         St = E.mod("physt.statistics").Statistics
         e = np.asarray(x["e"])
         h = H1(e, np.asarray(x["f"], dtype=int), np.asarray(x["q"], dtype=int), underflow=x["u"], overflow=x["o"], name="src", title="t", axis_name="ax",
-               stats=St(sum=1.0, sum2=2.0, min=0.0, max=1.0, weight=3.0), custom="c")
-        g = H1(np.asarray(x["e"]), np.asarray(x["g"], dtype=int))
+               stats=St(sum=1.0, sum2=2.0, min=0.0, max=1.0, weight=3.0), custom="c", keep_missed=p.get("keep", True))
+        g = H1(np.asarray(x["e"]), np.asarray(x["g"], dtype=int), keep_missed=p.get("keep", True))
         return h, g
 
 
@@ -261,6 +275,10 @@ class C12Static2D(_Base):
             if tier == "quick" and side == "source" and m in ("fill_n", "idiv", "iadd", "dtype"):
                 continue
             yield f"2d-{d}-{m}-{side}", dict(deriv=d, mut=m, side=side)
+        for d, m, side, keep in itertools.product(["copy", "add", "mul", "T"], ["iadd_missed", "idiv"], ("derived", "source"), (False, True)):
+            if keep and m != "iadd_missed":
+                continue
+            yield f"2d-{d}-{m}-{side}-keep{int(keep)}", dict(deriv=d, mut=m, side=side, keep=keep)
 
     def declare(self, cx, p):
         x = {"f": declare_cells(cx, "f", [2, 2], "int"), "q": declare_cells(cx, "q", [2, 2], "int"), "e": [declare_edges(cx, f"e{k}_", 2) for k in range(2)], "m": cx.int("m", 0),
@@ -272,8 +290,9 @@ class C12Static2D(_Base):
         np = E.np
         H2 = E.mod("physt.histogram_nd").Histogram2D
         mk = lambda f, **kw: H2([np.asarray(x["e"][0]), np.asarray(x["e"][1])], np.asarray(nested(f, [2, 2]), dtype=int), **kw)  # noqa: E731
-        h = mk(x["f"], errors2=np.asarray(nested(x["q"], [2, 2]), dtype=int), missed=x["m"], name="src", title="t", axis_names=["a", "b"], custom="c")
-        return h, mk(x["g"])
+        keep = p.get("keep", True)
+        h = mk(x["f"], errors2=np.asarray(nested(x["q"], [2, 2]), dtype=int), missed=x["m"], name="src", title="t", axis_names=["a", "b"], custom="c", keep_missed=keep)
+        return h, mk(x["g"], keep_missed=keep)
 
 
 @register
